@@ -33,7 +33,7 @@ def main():
                    "source_commits": [], "add_only": True},
          "engines": [{"name": "check", "path": "check", "serves_properties": sorted(CLAIMS),
                       "kind_free_text": "Coq 8.16.1 proofs over hand-written executable models + model/implementation correspondence (extracted OCaml vs Go harness, sequential scripts and controlled schedules)"}],
-         "checks": [], "notes": "see DESIGN.md; genuine defects repaired in /repo by fix: commits are listed in known-findings.txt (fixed: entries, none open); seeded/ holds the seeded changes (eight rounds) with demonstrations and seeded/MATRIX.txt what the quick checks report for each", "not_applicable": []}
+         "checks": [], "notes": "see DESIGN.md; genuine defects repaired in /repo by fix: commits are listed in known-findings.txt (fixed: entries, none open); seeded/ holds 188 seeded changes (nine rounds) with demonstrations and seeded/MATRIX.txt what the quick checks report for each", "not_applicable": []}
     for p in props:
         i = p["id"]
         if i in CLAIMS:
